@@ -26,6 +26,11 @@ RULE = ("(a) end to end through impl.assemble: every branch mnemonic (stub signa
         "exported (done::) by another file linked or included before or after it -- {own later, export only, both with own later, both with own "
         "earlier} x {other first, other last, include first, include last}; the scoping rule (own file's definition first, then exports) selects "
         "the address the decoded displacement must reach; "
+        "(b3) local labels across scope boundaries: the same local name (1$ 17$ 1 10 2) in the stretch before the first global label of a file / "
+        "included file / second file, used backwards, and in the block opened by the next global label, used forwards -- each branch must reach "
+        "the label of its own block; a reference to a local label defined only in the previous block must be refused; "
+        "(b4) operand-less .word/.dword/.byte(+.even) between an instruction and its target, mostly without .link: the target label carries a "
+        "marker word and the expected address is the position of the marker in the image (model-free); "
         "(c) the stubs' inner functions driven directly through the real Instruction objects: OffsetOperandStub.fn of every branch "
         "mnemonic and sob over a window of targets around rel (quick +-600, thorough +-70000), ImmediateOperandStub.fn over +-600, the "
         "relative-mode lambdas over seeded (target, rel) pairs; compared with Model.Insns.enc_offset / enc_imm / enc_rel and with the Spec. "
@@ -60,7 +65,7 @@ def branch_mnemonics(intro):
 
 
 class BrCase:
-    __slots__ = ("m", "reg", "t", "addr", "src", "off", "total", "spelling", "d", "res", "files", "fs", "lax")
+    __slots__ = ("m", "reg", "t", "addr", "src", "off", "total", "spelling", "d", "res", "files", "fs", "lax", "late")
 
     def describe(self):
         return {"files": [list(f) for f in (getattr(self, "files", None) or [("t.mac", self.src)])], "fs": getattr(self, "fs", None),
@@ -246,7 +251,7 @@ def branch_cases(brs, sobs, rng, tier):
 
 # ------------------------------------------------------------------------------------------------
 class RelCase:
-    __slots__ = ("m", "ops", "addr", "i", "src", "nwords", "total", "res", "key", "files", "fs", "off", "lax")
+    __slots__ = ("m", "ops", "addr", "i", "src", "nwords", "total", "res", "key", "files", "fs", "off", "lax", "late")
 
     def describe(self):
         return {"files": [list(f) for f in (getattr(self, "files", None) or [("t.mac", self.src)])], "fs": getattr(self, "fs", None),
@@ -661,6 +666,141 @@ def shadow_cases(intro, brs, sobs, rng, tier):
 
 
 # ------------------------------------------------------------------------------------------------
+# local labels across scope boundaries.  Scoping rule (C11, Spec/Scope): a local label belongs to the block opened
+# by the nearest preceding global label of its file; the stretch before the first global label of a file or of an
+# included file is a block of its own.  Each program has a local label L in that leading block, used backwards by
+# instruction A, and the same name L in the block opened by `main:`, used forwards by instruction B.
+LOCAL_NAMES = ["1$", "17$", "1", "10", "2"]
+
+
+def local_scope_cases(brs, sobs, rng, tier):
+    cases, negatives = [], []
+    places = ["main", "include", "second-file"]
+    for m in brs + sobs:
+        sob = m in sobs
+        for _ in range(2 if tier == "quick" else 8):
+            L = rng.choice(LOCAL_NAMES)
+            place = rng.choice(places)
+            link = rng.choice([None, 0o2000, 0o100000])
+            base = 0o1000 if link is None else link
+            k, g, q = rng.choice([2, 4, 10]), rng.choice([2, 4]), rng.choice([0, 2, 8])
+            regA = rng.randrange(8)
+            mB = rng.choice(brs)
+            lineA = m + " " + (("r%d, " % regA) if sob else "") + L
+            lineB = "main: " + mB + " " + L
+            body = [L + ": .blkb " + IC.num(g), lineA, lineB] + ([".blkb " + IC.num(q)] if q else []) + [L + ": .blkb 2"]
+            blen = g + 2 + 2 + q + 2
+            head = [".link " + IC.octnum(link)] if link is not None else []
+            fs = None
+            if place == "main":
+                files, pre = [("main.mac", "\n".join(head + [".blkb " + IC.num(k)] + body) + "\n")], k
+                total = k + blen
+            elif place == "include":
+                files = [("main.mac", "\n".join(head + ["start: .blkb " + IC.num(k), '.include "part.mac"', "fin: .blkb 2"]) + "\n")]
+                fs, pre, total = {"part.mac": "\n".join(body) + "\n"}, k, k + blen + 2
+            else:
+                files = [("a.mac", "\n".join(head + ["start: .blkb " + IC.num(k)]) + "\n"), ("b.mac", "\n".join(body) + "\n")]
+                pre, total = k, k + blen
+            for which, mm, reg, off, tgt in (("A", m, regA if sob else None, pre + g, base + pre),
+                                             ("B", mB, None, pre + g + 2, base + pre + g + 4 + q)):
+                c = BrCase()
+                c.m, c.reg, c.t, c.addr = mm, reg, tgt, base + off
+                c.d = tgt - (c.addr + 2)
+                c.off, c.total, c.lax = off, total, True
+                c.spelling = "localscope:%s:%s:%s:%s" % (place, L, which, "nolink" if link is None else "link")
+                c.files, c.fs, c.src = files, fs, files[0][1]
+                cases.append(c)
+        # a reference to a local label that exists only in the PREVIOUS block must be refused
+        L = rng.choice(LOCAL_NAMES)
+        src = "%s: .blkb 2\n%s %s%s\nmain: %s %s\n.blkb 4\n" % (L, m, ("r1, " if sob else ""), L, rng.choice(brs), L)
+        negatives.append(src)
+    return cases, negatives
+
+
+def check_negatives(rep, negatives):
+    outs = impl.pmap("assemble", [(([("t.mac", src)],), {}) for src in negatives])
+    for src, o in zip(negatives, outs):
+        rep.add_eval()
+        rep.count("localscope:dangling:" + str(o["outcome"]))
+        if o["outcome"] != "failed":
+            rep.violate("localscope:dangling:" + src.replace("\n", "/"),
+                        "a branch to a local label that is defined only in the previous block (before the global label) was not refused: it was bound across the scope boundary",
+                        {"files": [["t.mac", src]], "must_fail": True, "impl": {k: o.get(k) for k in ("outcome", "code", "crash")}})
+
+
+# ------------------------------------------------------------------------------------------------
+# operand-less data directives between an instruction and its target, with and without .link (without it every size
+# is only announced when the address is committed).  Expected address, model-free: the target label is followed by the
+# marker word 125252, whose position in the image is where the label really is.
+BARE_SEQS = [[".word"], [".dword"], [".byte", ".even"], [".word", ".word"], [".byte", ".byte"], [".word", ".byte", ".even"], [".dword", ".word"]]
+MARKER = bytes([0xAA, 0xAA])
+
+
+def bare_directive_cases(intro, brs, sobs, rng, tier):
+    by = {n: st for n, _p, st in intro}
+    atoms = [(m, "B") for m in brs] + [("clr", "R"), ("tst", "@R"), ("jmp", "R"), ("mov", "R,r"), ("mov", "#,R"), ("mov", "#,@R"), ("jsr", "reg,R"),
+                                        ("ldf", "R,ac"), ("push", "R"), ("call", "R")]
+    cases = []
+    for m, shape in atoms:
+        if m not in by:
+            continue
+        for _ in range(2 if tier == "quick" else 8):
+            seq = rng.choice(BARE_SEQS)
+            link = rng.choice([None, None, None, 0o2000])
+            base = 0o1000 if link is None else link
+            k = rng.choice([0, 2, 6])
+            parts = shape.split(",")
+            nwords = 1 + sum(1 for x in parts if x in ("R", "@R", "#"))
+            texts, opsf, tested = [], [], None
+            for pi, x in enumerate(parts):
+                if x in ("R", "@R", "B"):
+                    tested = pi
+                    texts.append(("@" if x == "@R" else "") + "tgt")
+                    opsf.append(lambda T, c=("ORelDef" if x == "@R" else "ORel"): (c, T))
+                elif x == "r":
+                    r = rng.randrange(6); texts.append(IC.REGNAMES[r]); opsf.append(lambda T, r=r: ("OReg", r))
+                elif x == "#":
+                    v = rng.choice([1, 5, 0o100]); texts.append("#" + IC.num(v)); opsf.append(lambda T, v=v: ("OImm", v))
+                elif x == "reg":
+                    r = rng.randrange(8); texts.append(IC.REGNAMES[r]); opsf.append(lambda T, r=r: ("OReg", r))
+                elif x == "ac":
+                    n = rng.randrange(4); texts.append("ac%d" % n); opsf.append(lambda T, n=n: ("OAcc", n))
+            lines = ([".link " + IC.octnum(link)] if link is not None else []) + ([".blkb " + IC.num(k)] if k else []) + \
+                    [m + " " + ", ".join(texts)] + seq + ["tgt: .word 125252"]
+            src = "\n".join(lines) + "\n"
+            if shape == "B":
+                c = BrCase()
+                c.m, c.reg, c.addr, c.off, c.lax = m, None, base + k, k, True
+                c.t, c.d, c.total = base + k + 2, 0, 0
+                c.spelling = "bare:%s:%s" % ("+".join(seq), "nolink" if link is None else "link")
+            else:
+                c = RelCase()
+                c.m, c.addr, c.i, c.nwords, c.off, c.lax, c.total = m, base + k, tested, nwords, k, True, 0
+                c.ops = [f(0) for f in opsf]
+                c.key = (m, "bare:%s:%s" % ("+".join(seq), shape), c.addr, 0, "@" in texts[tested], "nolink" if link is None else "link")
+            c.files, c.fs, c.src = [("t.mac", src)], None, src
+
+            def late(c=c, base=base, k=k, nwords=(1 if shape == "B" else nwords), opsf=opsf, is_br=(shape == "B")):
+                r = c.res
+                if r["outcome"] != "ok":
+                    return
+                b = bytes.fromhex(r["code"])
+                pos = b.find(MARKER, k + 2 * nwords)
+                if pos < 0 or pos % 2:
+                    c.total = -1        # no aligned marker: judged as a crash
+                    return
+                T = base + pos
+                c.total = len(b)
+                if is_br:
+                    c.t, c.d = T, T - (c.addr + 2)
+                else:
+                    c.ops = [f(T) for f in opsf]
+            c.late = late
+            cases.append(c)
+    return cases
+
+
+# ------------------------------------------------------------------------------------------------
 def explore(rep, br, tier, seed):
     rng = random.Random(seed)
     intro = IC.introspect()
@@ -671,8 +811,14 @@ def explore(rep, br, tier, seed):
         rep.disagree("branch mnemonics found by introspection", {"branches": brs, "sob": sobs})
     # (a) end-to-end branches
     lay = layout_cases(intro, brs, sobs, rng, tier) + shadow_cases(intro, brs, sobs, rng, tier)
+    loc, negatives = local_scope_cases(brs, sobs, rng, tier)
+    lay += loc + bare_directive_cases(intro, brs, sobs, rng, tier)
+    check_negatives(rep, negatives)
     bc = branch_cases(brs, sobs, rng, tier) + [c for c in lay if isinstance(c, BrCase)]
     IC.run_cases(bc)
+    for c in bc:
+        if getattr(c, "late", None):
+            c.late()
     for c in bc:
         rep.add_eval()
         rep.count("branch:" + c.res["outcome"])
@@ -695,6 +841,9 @@ def explore(rep, br, tier, seed):
     rc = relative_cases(intro, rng, tier) + [c for c in lay if isinstance(c, RelCase)]
     rep.count("layout-cases", len(lay))
     IC.run_cases(rc)
+    for c in rc:
+        if getattr(c, "late", None):
+            c.late()
     for c in rc:
         rep.add_eval()
         rep.count("relative:" + c.res["outcome"])
@@ -827,8 +976,14 @@ def search(rep, br, tier, seed):
 
 def explore_with(rep, rng, intro, brs, sobs):
     lay = layout_cases(intro, brs, sobs, rng, "thorough") + shadow_cases(intro, brs, sobs, rng, "thorough")
+    loc, negatives = local_scope_cases(brs, sobs, rng, "thorough")
+    lay += loc + bare_directive_cases(intro, brs, sobs, rng, "thorough")
+    check_negatives(rep, negatives)
     bc = branch_cases(brs, sobs, rng, "thorough") + [c for c in lay if isinstance(c, BrCase)]
     IC.run_cases(bc)
+    for c in bc:
+        if getattr(c, "late", None):
+            c.late()
     codes = C.run_case_files(ID, REQ, PRE, C.shard([c.term() for c in bc], 500), judge_expr="map judge_branch cases")
     for c, code in zip(bc, [x for sh in codes for x in sh]):
         rep.add_eval()
@@ -836,6 +991,9 @@ def explore_with(rep, rng, intro, brs, sobs):
             rep.violate(f"branch:{c.m}:{c.d}:{c.spelling}:{c.res['outcome']}", "branch accept/reject or target contradicts the Spec (Run.C04Run.prop_branch)", c.describe())
     rc = relative_cases(intro, rng, "thorough") + [c for c in lay if isinstance(c, RelCase)]
     IC.run_cases(rc)
+    for c in rc:
+        if getattr(c, "late", None):
+            c.late()
     codes = C.run_case_files(ID, REQ, PRE, C.shard([c.term() for c in rc], 500), judge_expr="map judge_relative cases")
     for c, code in zip(rc, [x for sh in codes for x in sh]):
         rep.add_eval()
@@ -854,6 +1012,8 @@ def replay(data):
     for fn, text in (inp.get("fs") or {}).items():
         print("include %s:" % fn, text.strip().replace("\n", " / "))
     print("now:", {k: r.get(k) for k in ("outcome", "base", "code", "crash")})
+    if inp.get("must_fail"):
+        return r["outcome"] == "failed"
     if "distance" in inp:
         c = BrCase()
         c.m, c.reg, c.t, c.addr, c.off, c.res = inp["mnemonic"], inp["reg"], inp["target"], inp["address"], inp["word_offset"], r
